@@ -359,7 +359,7 @@ impl<F: Field> Zero for SparseMultilinearExtension<F> {
     }
 
     fn is_zero(&self) -> bool {
-        self.num_vars == 0 && self.evaluations.is_empty()
+        self.num_vars == 0 && self.evaluations.values().all(Zero::is_zero)
     }
 }
 
